@@ -28,6 +28,9 @@ TEMPLATES = {
     'T3s': {'N': 7, 'par': [-1, 0, 1, 1, 1, 0, 5], 'kind': [O, C, B, B, S, C, B]},
     # root{Z, O||{P{a,b,H*}, R2{x,y}}}: the deep history's parent is a region that is exited together with its sibling
     'T5d': {'N': 10, 'par': [-1, 0, 0, 2, 3, 3, 3, 2, 7, 7], 'kind': [C, B, O, C, B, B, D, C, B, B]},
+    # root{Z, P{A, F(final), H}}: a final state next to the history state is remembered like any other child
+    'T6s': {'N': 6, 'par': [-1, 0, 0, 2, 2, 2], 'kind': [C, B, C, B, F, S]},
+    'T6d': {'N': 6, 'par': [-1, 0, 0, 2, 2, 2], 'kind': [C, B, C, B, F, D]},
     # root{P{A{X,Y},Hs,Hd}, Z}: shallow and deep history side by side
     'T4': {'N': 8, 'par': [-1, 0, 1, 2, 2, 1, 1, 0], 'kind': [C, C, C, B, B, S, D, B]},
 }
@@ -36,6 +39,7 @@ LEVELS = {
         {'name': 'L1-N5-M2-K3', 'N': 5, 'M': 2, 'K': 3, 'guards': 0, 'namings': ['rev'], 'budget_s': 100},
         {'name': 'L2-T1T4-M2-K3', 'templates': ['T1s', 'T1d', 'T4'], 'M': 2, 'K': 3, 'guards': 0, 'namings': ['rev', 'mix'], 'budget_s': 90},
         {'name': 'L3-T3-M2-K2', 'templates': ['T3s'], 'M': 2, 'K': 2, 'guards': 1, 'budget_s': 60},
+        {'name': 'L5-T6-M2-K3', 'templates': ['T6s', 'T6d'], 'M': 2, 'K': 3, 'guards': 0, 'namings': ['id'], 'budget_s': 40},
         {'name': 'L4-T5d-M2-K3', 'templates': ['T5d'], 'M': 2, 'K': 3, 'guards': 0, 'namings': ['id', 'rev'], 'nevents': 1,
          'budget_s': 60},
     ],
